@@ -348,6 +348,8 @@ type HStep struct {
 	A    string `json:"a"` // send | doret | recv | close
 	Kind string `json:"kind,omitempty"`
 	I    int    `json:"i,omitempty"`
+	// NoWait: the next step (a close) is taken at once, before the goroutine this Send started has run at all.
+	NoWait bool `json:"nowait,omitempty"`
 	// State is the model's state after this action and the steps that follow it by themselves;
 	// nil when the model had not yet taken every such step (no comparison then).
 	State *struct {
@@ -382,6 +384,7 @@ type gatedClient struct {
 	gates []chan struct{}
 	kinds []string
 	ndo   int
+	nret  int // round trips that have returned
 }
 
 func (g *gatedClient) Do(req *http.Request) (*http.Response, error) {
@@ -394,6 +397,7 @@ func (g *gatedClient) Do(req *http.Request) (*http.Response, error) {
 	gate, kind := g.gates[i], g.kinds[i]
 	g.mu.Unlock()
 	<-gate
+	defer func() { g.mu.Lock(); g.nret++; g.mu.Unlock() }()
 	switch kind {
 	case "fail":
 		return nil, errors.New("injected HTTP failure")
@@ -492,8 +496,22 @@ func TestHTTPChan(t *testing.T) {
 					closeInvoked = true
 					go func() { ch.Close(); mu.Lock(); closeDone = true; mu.Unlock() }()
 				}
+				if st.A == "send" && st.NoWait {
+					continue
+				}
 				synctest.Wait()
 				res.Evaluations++
+				// Close waits for every request a Send has accepted - also one whose goroutine has not run a single step yet
+				mu.Lock()
+				cdn := closeDone
+				mu.Unlock()
+				gc.mu.Lock()
+				nacc, nret := len(gc.kinds), gc.nret
+				gc.mu.Unlock()
+				if cdn && nret != nacc {
+					bad(fmt.Sprintf("after step %d (%s): Close has returned while %d of %d accepted requests are still in flight", si+1, st.A, nacc-nret, nacc))
+					break
+				}
 				// compare the projected state with the model's state after this action
 				if st.State == nil {
 					continue
